@@ -103,14 +103,22 @@ def to_odict(t):
     return odict((k, to_odict(v)) for k, v in t.items())
 
 
-@st.composite
-def _cases(draw):
-    rnd = draw(urandoms())
+def _gen_from(rnd):
     vendor = rnd.choice(["huawei", "cisco", "juniper"])
     a, b = gen_acl(rnd), gen_acl(rnd)
     return {"vendor": vendor, "A": a, "B": b, "tree": plain(gen_tree(rnd, jun=(vendor == "juniper"), rules=a + b)),
             "acl_indents": [rnd.choice([0, 4, 8]), rnd.choice([0, 4, 12])]}
 
+
+@st.composite
+def _cases(draw):
+    return _gen_from(draw(urandoms()))
+
+
+def fuzz_decode(fdp):
+    """coverage-guided tier: the same generator driven by fuzzer-chosen bytes (vf/core/fuzz_target.py)"""
+    from vf.model.rnd import FdpRandom
+    return _gen_from(FdpRandom(fdp))
 
 def strategy(tier):
     return _cases()
